@@ -4,9 +4,11 @@ import (
 	"bytes"
 	"encoding/binary"
 	"fmt"
+	"os"
 	"regexp"
 	"sort"
 	"strings"
+	"syscall"
 	"time"
 
 	"github.com/openebs/jiva/rpc"
@@ -333,7 +335,8 @@ func (d c15Data) mark(typ uint32, off, size int64) {
 	})
 }
 
-var errC15NoSpace = fmt.Errorf("no space left on device (injected in the data processor)")
+// what a replica's disk produces when it is full (the error class travels through the server's reply construction)
+var errC15NoSpace error = &os.PathError{Op: "write", Path: "/replica/volume-head.img", Err: syscall.ENOSPC}
 
 func (d c15Data) ReadAt(b []byte, off int64) (int, error) {
 	d.mark(rpc.TypeRead, off, int64(len(b)))
